@@ -7,88 +7,88 @@
                    model, no division by zero)
      constructible the model's own arithmetic is defined on the vector *)
 From Coq Require Import List String Bool.
-From PAFC01 Require Import ModelTree.
-From PAFC03 Require Import Model Proofs Proofs2 Proofs3.
+From PAFC01 Require Import ModelTree Proofs8.
+From PAFC03 Require Import Model Proofs Proofs2 Proofs3 Proofs4.
 Import ListNotations.
 
 (* ANY NESTING LEVEL (induction on the tree): checking each level's assertions while walking down, with
    ignore_assertions handed to every child, raises the fit exception exactly when some inequality of the
    flat list is false *)
-Theorem C03_levels_flat_partial : forall (V : Type) (bin : binop -> V -> V -> V) (bin_ok : binop -> V -> V -> bool)
+Theorem C03_levels_flat_partial : forall (V : Type) (bin : binop -> V -> V -> V) (un : unop -> V -> V) (bin_ok : binop -> V -> V -> bool)
     (ltb leb : V -> V -> bool) (of_bool : bool -> V) (args : nat -> option V) (n : node V) (lv : levels V),
   levels_wf V lv n ->
-  ldef V bin bin_ok ltb leb of_bool args lv ->
-  status V bin bin_ok ltb leb of_bool args true lv n = Ok tt ->
-  status V bin bin_ok ltb leb of_bool args false lv n =
-  if all_hold V bin bin_ok ltb leb of_bool args (flat V lv) then Ok tt else Fit.
+  ldef V bin un bin_ok ltb leb of_bool args lv ->
+  status V bin un bin_ok ltb leb of_bool args true lv n = Ok tt ->
+  status V bin un bin_ok ltb leb of_bool args false lv n =
+  if all_hold V bin un bin_ok ltb leb of_bool args (flat V lv) then Ok tt else Fit.
 Proof. exact status_flat. Qed.
 
 (* ignore_assertions=True reaches every level: no level's assertions matter *)
-Theorem C03_ignore_reaches_every_level : forall (V : Type) (bin : binop -> V -> V -> V) (bin_ok : binop -> V -> V -> bool)
+Theorem C03_ignore_reaches_every_level : forall (V : Type) (bin : binop -> V -> V -> V) (un : unop -> V -> V) (bin_ok : binop -> V -> V -> bool)
     (ltb leb : V -> V -> bool) (of_bool : bool -> V) (args : nat -> option V) (n : node V) (lv lv' : levels V),
-  status V bin bin_ok ltb leb of_bool args true lv n = status V bin bin_ok ltb leb of_bool args true lv' n.
+  status V bin un bin_ok ltb leb of_bool args true lv n = status V bin un bin_ok ltb leb of_bool args true lv' n.
 Proof. exact status_ignore_levels. Qed.
 
 (* the code is the specification, for both values of ignore_prior_limits *)
-Theorem C03_run_is_gate_partial : forall (V : Type) (bin : binop -> V -> V -> V) (bin_ok : binop -> V -> V -> bool)
+Theorem C03_run_is_gate_partial : forall (V : Type) (bin : binop -> V -> V -> V) (un : unop -> V -> V) (bin_ok : binop -> V -> V -> bool)
     (ltb leb : V -> V -> bool) (of_bool : bool -> V)
     (ignore : bool) (lims : list (limit V)) (lv : levels V) (n : node V) (vec : list V),
   levels_wf V lv n ->
-  ldef V bin bin_ok ltb leb of_bool (vec_args V n vec) lv ->
-  constructible V bin bin_ok ltb leb of_bool n vec ->
-  run V bin bin_ok ltb leb of_bool ignore lims lv n vec = gate V bin bin_ok ltb leb of_bool ignore lims (flat V lv) n vec.
+  ldef V bin un bin_ok ltb leb of_bool (vec_args V n vec) lv ->
+  constructible V bin un bin_ok ltb leb of_bool n vec ->
+  run V bin un bin_ok ltb leb of_bool ignore lims lv n vec = gate V bin un bin_ok ltb leb of_bool ignore lims (flat V lv) n vec.
 Proof. exact run_is_gate. Qed.
 
 (* an instance is produced iff every value is inside its prior's limits and every assertion of
    every level is true of the values; the instance is then the C01 instance *)
-Theorem C03_gate_iff_partial : forall (V : Type) (bin : binop -> V -> V -> V) (bin_ok : binop -> V -> V -> bool)
+Theorem C03_gate_iff_partial : forall (V : Type) (bin : binop -> V -> V -> V) (un : unop -> V -> V) (bin_ok : binop -> V -> V -> bool)
     (ltb leb : V -> V -> bool) (of_bool : bool -> V)
     (lims : list (limit V)) (lv : levels V) (n : node V) (vec : list V) (i : ival V),
   levels_wf V lv n ->
-  ldef V bin bin_ok ltb leb of_bool (vec_args V n vec) lv ->
-  constructible V bin bin_ok ltb leb of_bool n vec ->
-  (run V bin bin_ok ltb leb of_bool false lims lv n vec = VOk i <->
+  ldef V bin un bin_ok ltb leb of_bool (vec_args V n vec) lv ->
+  constructible V bin un bin_ok ltb leb of_bool n vec ->
+  (run V bin un bin_ok ltb leb of_bool false lims lv n vec = VOk i <->
    List.length vec = prior_count V n /\ within V leb lims (vec_args V n vec) = true /\
-   all_hold V bin bin_ok ltb leb of_bool (vec_args V n vec) (flat V lv) = true /\ i = inst V bin (vec_args V n vec) n).
+   all_hold V bin un bin_ok ltb leb of_bool (vec_args V n vec) (flat V lv) = true /\ i = inst V bin un (vec_args V n vec) n).
 Proof. exact run_ok_iff. Qed.
 
 (* otherwise the fit exception (limit exception first, else assertion failure) *)
-Theorem C03_rejects_partial : forall (V : Type) (bin : binop -> V -> V -> V) (bin_ok : binop -> V -> V -> bool)
+Theorem C03_rejects_partial : forall (V : Type) (bin : binop -> V -> V -> V) (un : unop -> V -> V) (bin_ok : binop -> V -> V -> bool)
     (ltb leb : V -> V -> bool) (of_bool : bool -> V)
     (lims : list (limit V)) (lv : levels V) (n : node V) (vec : list V),
   levels_wf V lv n ->
-  ldef V bin bin_ok ltb leb of_bool (vec_args V n vec) lv ->
-  constructible V bin bin_ok ltb leb of_bool n vec ->
+  ldef V bin un bin_ok ltb leb of_bool (vec_args V n vec) lv ->
+  constructible V bin un bin_ok ltb leb of_bool n vec ->
   List.length vec = prior_count V n ->
-  (within V leb lims (vec_args V n vec) = false -> run V bin bin_ok ltb leb of_bool false lims lv n vec = VLimit) /\
+  (within V leb lims (vec_args V n vec) = false -> run V bin un bin_ok ltb leb of_bool false lims lv n vec = VLimit) /\
   (within V leb lims (vec_args V n vec) = true ->
-   all_hold V bin bin_ok ltb leb of_bool (vec_args V n vec) (flat V lv) = false ->
-   run V bin bin_ok ltb leb of_bool false lims lv n vec = VAssert).
+   all_hold V bin un bin_ok ltb leb of_bool (vec_args V n vec) (flat V lv) = false ->
+   run V bin un bin_ok ltb leb of_bool false lims lv n vec = VAssert).
 Proof. exact run_rejects. Qed.
 
 (* a value outside its limits: the limit exception, unconditionally (limits are looked at first) *)
-Theorem C03_limit_first : forall (V : Type) (bin : binop -> V -> V -> V) (bin_ok : binop -> V -> V -> bool)
+Theorem C03_limit_first : forall (V : Type) (bin : binop -> V -> V -> V) (un : unop -> V -> V) (bin_ok : binop -> V -> V -> bool)
     (ltb leb : V -> V -> bool) (of_bool : bool -> V)
     (lims : list (limit V)) (lv : levels V) (n : node V) (vec : list V),
   List.length vec = prior_count V n -> within V leb lims (vec_args V n vec) = false ->
-  run V bin bin_ok ltb leb of_bool false lims lv n vec = VLimit.
+  run V bin un bin_ok ltb leb of_bool false lims lv n vec = VLimit.
 Proof. exact run_limit_first. Qed.
 
 (* when the caller ignores limits/assertions an instance is always produced (if it can be constructed at all) *)
-Theorem C03_ignore_total_partial : forall (V : Type) (bin : binop -> V -> V -> V) (bin_ok : binop -> V -> V -> bool)
+Theorem C03_ignore_total_partial : forall (V : Type) (bin : binop -> V -> V -> V) (un : unop -> V -> V) (bin_ok : binop -> V -> V -> bool)
     (ltb leb : V -> V -> bool) (of_bool : bool -> V)
     (lims : list (limit V)) (lv : levels V) (n : node V) (vec : list V),
-  List.length vec = prior_count V n -> constructible V bin bin_ok ltb leb of_bool n vec ->
-  run V bin bin_ok ltb leb of_bool true lims lv n vec = VOk (inst V bin (vec_args V n vec) n).
+  List.length vec = prior_count V n -> constructible V bin un bin_ok ltb leb of_bool n vec ->
+  run V bin un bin_ok ltb leb of_bool true lims lv n vec = VOk (inst V bin un (vec_args V n vec) n).
 Proof. exact run_ignore_total. Qed.
 
 (* ... and that instance is complete: no parameter is left without a value anywhere in it (for the shapes the walk
    covers: tuple members are priors or constants, no bare tuple inside a collection) *)
-Theorem C03_constructed_complete : forall (V : Type) (bin : binop -> V -> V -> V) (bin_ok : binop -> V -> V -> bool)
+Theorem C03_constructed_complete : forall (V : Type) (bin : binop -> V -> V -> V) (un : unop -> V -> V) (bin_ok : binop -> V -> V -> bool)
     (ltb leb : V -> V -> bool) (of_bool : bool -> V) (args : nat -> option V) (n : node V) (lv : levels V),
   covered V n = true ->
-  status V bin bin_ok ltb leb of_bool args true lv n = Ok tt ->
-  no_missing V (inst V bin args n) = true.
+  status V bin un bin_ok ltb leb of_bool args true lv n = Ok tt ->
+  no_missing V (inst V bin un args n) = true.
 Proof. exact constructed_no_missing. Qed.
 
 (* limits: `within` is the inequality lo <= v <= hi for every listed parameter, and speaks about every
@@ -103,57 +103,57 @@ Theorem C03_limits_cover : forall (V : Type) (leb : V -> V -> bool) (lims : list
   forall q v, In q ids -> args q = Some v -> exists lo hi, In (q, (lo, hi)) lims /\ leb lo v = true /\ leb v hi = true.
 Proof. exact within_covers. Qed.
 
-Theorem C03_assertions_direct : forall (V : Type) (bin : binop -> V -> V -> V) (bin_ok : binop -> V -> V -> bool)
+Theorem C03_assertions_direct : forall (V : Type) (bin : binop -> V -> V -> V) (un : unop -> V -> V) (bin_ok : binop -> V -> V -> bool)
     (ltb leb : V -> V -> bool) (of_bool : bool -> V) (asserts : list (assertion V)) (args : nat -> option V),
-  all_hold V bin bin_ok ltb leb of_bool args asserts = true <->
-  forall a, In a asserts -> holds V bin bin_ok ltb leb of_bool args a = Ok true.
+  all_hold V bin un bin_ok ltb leb of_bool args asserts = true <->
+  forall a, In a asserts -> holds V bin un bin_ok ltb leb of_bool args a = Ok true.
 Proof. exact all_hold_spec. Qed.
 
 (* the verdict of an inequality is the inequality evaluated on the numbers (operands may be
    parameters, constants or arithmetic expressions) *)
-Theorem C03_verdict_lt : forall (V : Type) (bin : binop -> V -> V -> V) (bin_ok : binop -> V -> V -> bool)
+Theorem C03_verdict_lt : forall (V : Type) (bin : binop -> V -> V -> V) (un : unop -> V -> V) (bin_ok : binop -> V -> V -> bool)
     (ltb leb : V -> V -> bool) (of_bool : bool -> V) (args : nat -> option V) (l g : node V),
-  holds V bin bin_ok ltb leb of_bool args (ALt l g) = Ok true <->
-  exists x y, operand V bin bin_ok args l = Ok x /\ operand V bin bin_ok args g = Ok y /\ ltb x y = true.
+  holds V bin un bin_ok ltb leb of_bool args (ALt l g) = Ok true <->
+  exists x y, operand V bin un bin_ok args l = Ok x /\ operand V bin un bin_ok args g = Ok y /\ ltb x y = true.
 Proof. exact holds_lt. Qed.
 
-Theorem C03_verdict_le : forall (V : Type) (bin : binop -> V -> V -> V) (bin_ok : binop -> V -> V -> bool)
+Theorem C03_verdict_le : forall (V : Type) (bin : binop -> V -> V -> V) (un : unop -> V -> V) (bin_ok : binop -> V -> V -> bool)
     (ltb leb : V -> V -> bool) (of_bool : bool -> V) (args : nat -> option V) (l g : node V),
-  holds V bin bin_ok ltb leb of_bool args (ALe l g) = Ok true <->
-  exists x y, operand V bin bin_ok args l = Ok x /\ operand V bin bin_ok args g = Ok y /\ leb x y = true.
+  holds V bin un bin_ok ltb leb of_bool args (ALe l g) = Ok true <->
+  exists x y, operand V bin un bin_ok args l = Ok x /\ operand V bin un bin_ok args g = Ok y /\ leb x y = true.
 Proof. exact holds_le. Qed.
 
 (* what the operators build: x op y (either side may be the constant: reflected operators) means the
    inequality, for all four operators *)
-Theorem C03_operator_builds : forall (V : Type) (bin : binop -> V -> V -> V) (bin_ok : binop -> V -> V -> bool)
+Theorem C03_operator_builds : forall (V : Type) (bin : binop -> V -> V -> V) (un : unop -> V -> V) (bin_ok : binop -> V -> V -> bool)
     (ltb leb : V -> V -> bool) (of_bool : bool -> V) (args : nat -> option V) (op : cmpop) (x y : node V) (t : assertion V),
   arith_like V x || arith_like V y = true ->
   cmp_nodes V ltb leb op x y = Some t ->
-  (holds V bin bin_ok ltb leb of_bool args t = Ok true <->
-   exists a b, operand V bin bin_ok args x = Ok a /\ operand V bin bin_ok args y = Ok b /\ cmp_consts V ltb leb op a b = true).
+  (holds V bin un bin_ok ltb leb of_bool args t = Ok true <->
+   exists a b, operand V bin un bin_ok args x = Ok a /\ operand V bin un bin_ok args y = Ok b /\ cmp_consts V ltb leb op a b = true).
 Proof. exact cmp_nodes_spec. Qed.
 
 (* CHAINS OF ANY LENGTH (induction on how the chain was written; the code since 33cdc7f): the object the
    operators return for ((x ? y) op c) op' d ... is true of the values iff every inequality written is --
    each new operand compared with the greatest (< / <=) or lowest (> / >=) operand so far -- and it remembers
    the ends of what was written *)
-Theorem C03_chain_all_links : forall (V : Type) (bin : binop -> V -> V -> V) (bin_ok : binop -> V -> V -> bool)
+Theorem C03_chain_all_links : forall (V : Type) (bin : binop -> V -> V -> V) (un : unop -> V -> V) (bin_ok : binop -> V -> V -> bool)
     (ltb leb : V -> V -> bool) (of_bool : bool -> V) (args : nat -> option V) (r : recipe V),
   rguard V r = true ->
   exists t, denote V ltb leb r = Some (t, rends V r) /\
-            (holds V bin bin_ok ltb leb of_bool args t = Ok true <-> means V bin bin_ok ltb leb args r).
+            (holds V bin un bin_ok ltb leb of_bool args t = Ok true <-> means V bin un bin_ok ltb leb args r).
 Proof. exact chain_all_links. Qed.
 
 (* one more comparison on an assertion object of any length adds exactly the one inequality written *)
-Theorem C03_chain_further : forall (V : Type) (bin : binop -> V -> V -> V) (bin_ok : binop -> V -> V -> bool)
+Theorem C03_chain_further : forall (V : Type) (bin : binop -> V -> V -> V) (un : unop -> V -> V) (bin_ok : binop -> V -> V -> bool)
     (ltb leb : V -> V -> bool) (of_bool : bool -> V)
     (args : nat -> option V) (first : assertion V) (e e' : node V * node V) (op : cmpop) (c : node V) (t : assertion V),
   let p := match op with CLt | CLe => snd e | CGt | CGe => fst e end in
   arith_like V p || arith_like V c = true ->
   chain V ltb leb first e op c = Some (t, e') ->
-  (holds V bin bin_ok ltb leb of_bool args t = Ok true <->
-   holds V bin bin_ok ltb leb of_bool args first = Ok true /\
-   exists a b, operand V bin bin_ok args p = Ok a /\ operand V bin bin_ok args c = Ok b /\ cmp_consts V ltb leb op a b = true) /\
+  (holds V bin un bin_ok ltb leb of_bool args t = Ok true <->
+   holds V bin un bin_ok ltb leb of_bool args first = Ok true /\
+   exists a b, operand V bin un bin_ok args p = Ok a /\ operand V bin un bin_ok args c = Ok b /\ cmp_consts V ltb leb op a b = true) /\
   e' = match op with CLt | CLe => (fst e, c) | CGt | CGe => (c, snd e) end.
 Proof. exact chain_spec. Qed.
 
@@ -161,12 +161,61 @@ Proof. exact chain_spec. Qed.
    operands, i.e. of the caller's variable names (the code since d91c8d6: such a name can no longer collide with
    an attribute of the compound object, so it is a name only; the correspondence runs comparisons written on
    variables called left, _left, assertions, ... and compares the objects built) *)
-Theorem C03_operand_names_irrelevant : forall (V : Type) (bin : binop -> V -> V -> V) (bin_ok : binop -> V -> V -> bool)
+Theorem C03_operand_names_irrelevant : forall (V : Type) (bin : binop -> V -> V -> V) (un : unop -> V -> V) (bin_ok : binop -> V -> V -> bool)
     (ltb leb : V -> V -> bool) (of_bool : bool -> V) (args : nat -> option V) (a b : assertion V),
   erase_a V a = erase_a V b ->
-  holds V bin bin_ok ltb leb of_bool args a = holds V bin bin_ok ltb leb of_bool args b.
+  holds V bin un bin_ok ltb leb of_bool args a = holds V bin un bin_ok ltb leb of_bool args b.
 Proof. exact names_irrelevant. Qed.
+
+(* ---------- the unary node (ModifiedPrior: -p, abs(p)) ---------- *)
+(* as an operand of a comparison: the operator applied to the operand's value under the same assignment; an
+   exception of the operand is the exception of the unary form *)
+Theorem C03_unary_operand : forall (V : Type) (bin : binop -> V -> V -> V) (un : unop -> V -> V) (bin_ok : binop -> V -> V -> bool)
+    (args : nat -> option V) (o : unop) (nm : string) (c : node V),
+  is_const V c = false ->
+  (forall a, operand V bin un bin_ok args c = Ok a -> operand V bin un bin_ok args (NUn o nm c) = Ok (un o a)) /\
+  (forall e, operand V bin un bin_ok args c = Err e -> operand V bin un bin_ok args (NUn o nm c) = Err e).
+Proof. exact unary_operand. Qed.
+
+(* x - y as the operators build it (x + (-y)) evaluates to bin OAdd x (un UNeg y) *)
+Theorem C03_sub_operand : forall (V : Type) (bin : binop -> V -> V -> V) (un : unop -> V -> V) (bin_ok : binop -> V -> V -> bool)
+    (args : nat -> option V) (ln rn nm : string) (l r : node V) (a b : V),
+  is_const V r = false -> operand V bin un bin_ok args l = Ok a -> operand V bin un bin_ok args r = Ok b ->
+  operand V bin un bin_ok args (NBin OAdd ln rn l (NUn UNeg nm r)) =
+  if bin_ok OAdd a (un UNeg b) then Ok (bin OAdd a (un UNeg b)) else Err EZero.
+Proof. exact sub_operand. Qed.
+
+(* op(x) < g means the inequality on op(value of x) *)
+Theorem C03_verdict_lt_unary : forall (V : Type) (bin : binop -> V -> V -> V) (un : unop -> V -> V) (bin_ok : binop -> V -> V -> bool)
+    (ltb leb : V -> V -> bool) (of_bool : bool -> V) (args : nat -> option V) (o : unop) (nm : string) (c g : node V),
+  is_const V c = false ->
+  (holds V bin un bin_ok ltb leb of_bool args (ALt (NUn o nm c) g) = Ok true <->
+   exists x y, operand V bin un bin_ok args c = Ok x /\ operand V bin un bin_ok args g = Ok y /\ ltb (un o x) y = true).
+Proof. exact verdict_lt_unary. Qed.
+
+(* a unary node held by a model is a level: its own assertions are checked first, the flag is handed to the
+   operand; with construction and assertions defined the level-by-level check is the flat specification *)
+Theorem C03_unary_level : forall (V : Type) (bin : binop -> V -> V -> V) (un : unop -> V -> V) (bin_ok : binop -> V -> V -> bool)
+    (ltb leb : V -> V -> bool) (of_bool : bool -> V) (args : nat -> option V) (ignore : bool) (lv : levels V)
+    (o : unop) (nm : string) (c : node V),
+  status V bin un bin_ok ltb leb of_bool args ignore lv (NUn o nm c) =
+  seq (if ignore then Ok tt else check_level V bin un bin_ok ltb leb of_bool args (here V lv))
+      (seq (status V bin un bin_ok ltb leb of_bool args ignore (below V nm lv) c) (un_status V bin un args c)).
+Proof. exact unary_level. Qed.
+
+Theorem C03_unary_level_gates_partial : forall (V : Type) (bin : binop -> V -> V -> V) (un : unop -> V -> V) (bin_ok : binop -> V -> V -> bool)
+    (ltb leb : V -> V -> bool) (of_bool : bool -> V) (args : nat -> option V) (lv : levels V) (o : unop) (nm : string) (c : node V),
+  levels_wf V lv (NUn o nm c) -> ldef V bin un bin_ok ltb leb of_bool args lv ->
+  status V bin un bin_ok ltb leb of_bool args true lv (NUn o nm c) = Ok tt ->
+  status V bin un bin_ok ltb leb of_bool args false lv (NUn o nm c) =
+  if all_hold V bin un bin_ok ltb leb of_bool args (flat V lv) then Ok tt else Fit.
+Proof. exact unary_level_gates. Qed.
 
 Print Assumptions C03_levels_flat_partial.
 Print Assumptions C03_run_is_gate_partial.
 Print Assumptions C03_chain_all_links.
+Print Assumptions C03_unary_operand.
+Print Assumptions C03_sub_operand.
+Print Assumptions C03_verdict_lt_unary.
+Print Assumptions C03_unary_level.
+Print Assumptions C03_unary_level_gates_partial.
